@@ -612,6 +612,35 @@ func Run(tier string) {
 			}
 		}
 	}
+	if thorough {
+		// pairwise products of the large dimensions: every source form x every destination form of addresses and of
+		// port lists, and every protocol x every address form on either side
+		af := addrForms()
+		for _, a := range af {
+			for _, b := range af {
+				for _, d := range dirs {
+					for _, p := range []string{"ip", "17"} {
+						c.rule(mk(d, p, a, "", b, "80,8080-8090"), true)
+						c.rule(mk(d, p, a, "80", b, ""), true)
+					}
+				}
+			}
+		}
+		for _, f := range pf {
+			for _, g := range pf {
+				for _, d := range dirs {
+					c.rule(mk(d, "6", "10.1.2.3", f, "10.129.66.195/24", g), true)
+					c.rule(mk(d, "17", "any", f, "assigned", g), true)
+				}
+			}
+		}
+		for _, p := range protoForms() {
+			for _, a := range af {
+				c.rule(mk("out", p, a, "80", "assigned", ""), true)
+				c.rule(mk("in", p, "any", "", a, "1-65535"), true)
+			}
+		}
+	}
 	c.smp.Offer(mk("in", "ip", "any", pf[len(pf)-1], "10.1.2.3", ""))
 	// spacing: 1..3 blanks/tabs between tokens, leading and trailing blanks
 	base := []string{"permit", "out", "17", "from", "10.1.2.3", "80", "to", "assigned", "1-2"}
@@ -744,7 +773,7 @@ func Run(tier string) {
 
 	run.Set("evaluations", c.evals)
 	run.Set("distinct_nontrivial", c.nontr.Len())
-	run.Set("rule", "positive space generated from the grammar (full product of core dimensions; all 257 protocols, 71 address forms incl. every prefix length 0..32 with host bits set, all port-list shapes of the pool, spacing variants, each against every core combination of the other dimensions' representatives), each rule parsed and packed with and without the uplink swap; negative space = every single-token deletion/duplication/adjacent swap/replacement from a 33-entry menu on 48 base rules and all byte strings of length <=2 (thorough 3) over 12 symbols; distinct_nontrivial = distinct grammar rules (whitespace-normalised) that were compared field by field")
+	run.Set("rule", "positive space generated from the grammar (full product of core dimensions; all 257 protocols, 71 address forms incl. every prefix length 0..32 with host bits set, all port-list shapes of the pool, spacing variants, each against every core combination of the other dimensions' representatives; thorough adds the pairwise products address form x address form, port-list form x port-list form and protocol x address form), each rule parsed and packed with and without the uplink swap; negative space = every single-token deletion/duplication/adjacent swap/replacement from a 33-entry menu on 48 base rules and all byte strings of length <=2 (thorough 3) over 12 symbols; distinct_nontrivial = distinct grammar rules (whitespace-normalised) that were compared field by field")
 	run.Set("exhaustive", true)
 	run.Set("samples", c.smp.List())
 	run.Set("positive_evaluations", positives)
